@@ -223,7 +223,10 @@ func (ex *Exec) evalAddrElem(ix *ast.IndexExpr) *T {
 	x := ex.eval(ix.X)
 	i := ex.eval(ix.Index)
 	ex.assert("S", "index["+exprString(ix)+"]", And(Le(I(0), i.T), Lt(i.T, SLen(x.T))))
-	ex.declare("arrAddr", []Sort{SInt}, SInt)
+	if _, ok := ex.decls["arrAddr"]; !ok {
+		ex.declare("arrAddr", []Sort{SInt}, SInt)
+		ex.declAxiom("arrAddr$nonneg", Forall([]string{"b"}, Le(I(0), App("arrAddr", SInt, Const("b", SInt))), App("arrAddr", SInt, Const("b", SInt))))
+	}
 	ex.assumptions["unsafe.Pointer(&s[i]) modelled as arrAddr(array)+offset+i; addresses of different arrays are unrelated"] = true
 	return Add(App("arrAddr", SInt, SBase(x.T)), Add(SOff(x.T), i.T))
 }
